@@ -278,11 +278,26 @@ impl RecStream {
     }
 }
 
-fn res_to_result(r: Res) -> Result<(), IoStreamError> {
+/// I/O error kinds a real writer can return; which one an entry gets is a function of its id, so
+/// "transient-looking" kinds (Interrupted, WouldBlock, TimedOut) are exercised as well.
+pub const IO_KINDS: [std::io::ErrorKind; 7] = [
+    std::io::ErrorKind::Other,
+    std::io::ErrorKind::Interrupted,
+    std::io::ErrorKind::WouldBlock,
+    std::io::ErrorKind::BrokenPipe,
+    std::io::ErrorKind::TimedOut,
+    std::io::ErrorKind::WriteZero,
+    std::io::ErrorKind::StorageFull,
+];
+
+fn res_to_result(r: Res, salt: u64) -> Result<(), IoStreamError> {
     match r {
         Res::Ok => Ok(()),
         Res::Validation => Err(IoStreamError::Validation(ValidationError::invalid("scripted validation error"))),
-        Res::Io => Err(IoStreamError::Io(std::io::Error::other("scripted io error"))),
+        Res::Io => {
+            let kind = IO_KINDS[(detsim::rng::mix(salt, 0x10) % IO_KINDS.len() as u64) as usize];
+            Err(IoStreamError::Io(std::io::Error::new(kind, "scripted io error")))
+        }
     }
 }
 
@@ -310,7 +325,7 @@ impl EntryIoStream for RecStream {
         self.ctl.hist.log(K::NextEnd { stream: no, id: seen.id, report: seen.report, res });
         self.ctl.nexts_done.fetch_add(1, Ordering::SeqCst);
         detsim::unblock(self.ctl.next_key);
-        res_to_result(res)
+        res_to_result(res, seen.id.unwrap_or(7))
     }
 
     fn flush(&mut self) -> std::io::Result<()> {
@@ -381,7 +396,10 @@ impl CountingRecorder {
 struct CounterCell(Arc<AtomicU64>);
 impl metrics::CounterFn for CounterCell {
     fn increment(&self, value: u64) {
+        // the recorder is a harness-owned seam: calling into it is a scheduling point
+        detsim::yield_point();
         self.0.fetch_add(value, Ordering::SeqCst);
+        detsim::yield_point();
     }
     fn absolute(&self, value: u64) {
         self.0.fetch_max(value, Ordering::SeqCst);
